@@ -80,6 +80,10 @@ def run(rep, tier):
                 cases.append((js, cname, layout, "case_pbkdf2", (hm, pl, sl, 2, 33),
                               "pbkdf2%s password %d salt %d count 2 output 33" % ("-hmac" if hm else "", pl, sl),
                               "ascon_pbkdf2_hmac" if hm else "ascon_pbkdf2"))
+            # beyond 255 blocks the big-endian block index needs its second byte
+            if cname.startswith("c64") and not hm:
+                cases.append((js, cname, layout, "case_pbkdf2", (hm, 8, 8, 1, 8160 + 40),
+                              "pbkdf2 password 8 salt 8 count 1 output 8200 (blocks 256 and 257)", "ascon_pbkdf2"))
             for count in (0, 1, 2, 3):
                 for ol in (1, 32, 33, 70):
                     if tier == "quick" and hm and ol == 70:
